@@ -50,7 +50,7 @@ use crate::{
         recovery::WalRecuperator,
     },
     multithreading::{
-        coordinator::{TransactionCoordinator, TransactionError},
+        coordinator::{TransactionCoordinator, TransactionError, TransactionState},
         runner::{BoxError, SharedTaskRunner, TaskError},
     },
     runtime::{
@@ -413,6 +413,18 @@ impl Database {
 
     /// Flushes all pending writes to disk.
     pub fn flush(&self) -> DatabaseResult<()> {
+        // A checkpoint writes every dirty page and then drops the log. While a transaction is
+        // still open its pages would go to disk and its log records away: nothing could undo it
+        // after a crash. Only the log is forced then; the checkpoint waits for a quiet moment.
+        if !self
+            .coordinator
+            .transaction_set(TransactionState::Active)
+            .is_empty()
+        {
+            self.pager.write().flush_wal()?;
+            return Ok(());
+        }
+
         self.pager.write().flush()?;
         Ok(())
     }
